@@ -70,9 +70,13 @@ func (w *dnsWorld) c08AfterOp(op *dnsOp) {
 		}
 	}
 	// ---- safety: what was served
-	if served != nil && served.name == op.name && served.qtype == op.qtype {
+	if served != nil && (served.name != op.name || served.qtype != op.qtype) {
+		s.Failf("c08-wrong-name-or-type-served", "client c%d asked %v and was served answer a%d, which is an answer for %s %s", op.cli, op.key, served.id, dnsAllNames[served.name], dnsmessage.TypeToString[served.qtype])
+		return
+	}
+	if served != nil {
 		fresh := served.chain != nil && (served.chain == op.chain || served.sentStep >= op.startStep)
-		if served.chain != nil && served.chain.key != op.key && served.chain.gen == op.gen {
+		if served.chain != nil && served.chain.key != op.key && (served.chain.op == nil || served.chain.op.gen == served.chain.op.genEnd) {
 			s.Failf("c08-wrong-scope-served", "client c%d asked %v and was served answer a%d, which was obtained by a resolution for %v", op.cli, op.key, served.id, served.chain.key)
 			return
 		}
@@ -316,6 +320,13 @@ func dnsScenarioC08(w *dnsWorld) {
 		}
 		if s.Failed() {
 			break
+		}
+		if len(w.ups) > 1 && T.Chance(1, 8) {
+			// swap the request rules: a name may now be routed to the other upstream (another scope)
+			rs := dnsGenRuleSet(T, w.rules.tags, w.names, false, false)
+			s.Fault("reload-reuse")
+			w.env("reload", func() { w.reloadReuse(rs) })
+			s.RunUntil(func() bool { return w.envTasks == 0 }, 5)
 		}
 		if T.Chance(1, 20) {
 			w.env("reload", func() { w.reloadClone() })
